@@ -686,7 +686,7 @@ func init() {
 		oracles:      []Oracle{oracleCrash, oracleCoverageC01},
 		chunks:       map[string]int{"quick": 8, "thorough": 16},
 		nGenQuick:    24,
-		nGenThorough: 60,
+		nGenThorough: 40,
 		rawPos:       true,
 		prefixStep:   map[string]int{"quick": 9, "thorough": 2},
 		tokStep:      map[string]int{"quick": 11, "thorough": 3},
@@ -701,7 +701,7 @@ func init() {
 		kinds:        []core.QKind{core.QCompletion, core.QCompletionPrefill},
 		chunks:       map[string]int{"quick": 8, "thorough": 16},
 		nGenQuick:    16,
-		nGenThorough: 40,
+		nGenThorough: 24,
 		prefixStep:   map[string]int{"quick": 11, "thorough": 2},
 		tokStep:      map[string]int{"quick": 13, "thorough": 3},
 	})
@@ -715,7 +715,7 @@ func init() {
 		kinds:        []core.QKind{core.QHover},
 		chunks:       map[string]int{"quick": 8, "thorough": 16},
 		nGenQuick:    24,
-		nGenThorough: 100,
+		nGenThorough: 50,
 		prefixStep:   map[string]int{"quick": 7, "thorough": 2},
 		tokStep:      map[string]int{"quick": 9, "thorough": 3},
 	}
@@ -730,7 +730,7 @@ func init() {
 		kinds:        []core.QKind{core.QSemTokens},
 		chunks:       map[string]int{"quick": 8, "thorough": 16},
 		nGenQuick:    24,
-		nGenThorough: 60,
+		nGenThorough: 40,
 		prefixStep:   map[string]int{"quick": 3, "thorough": 1},
 		tokStep:      map[string]int{"quick": 3, "thorough": 1},
 	}
@@ -747,7 +747,7 @@ func init() {
 		oracles:      []Oracle{oracleRanges},
 		chunks:       map[string]int{"quick": 8, "thorough": 16},
 		nGenQuick:    16,
-		nGenThorough: 60,
+		nGenThorough: 30,
 		prefixStep:   map[string]int{"quick": 9, "thorough": 2},
 		tokStep:      map[string]int{"quick": 11, "thorough": 3},
 	})
